@@ -217,6 +217,9 @@ class Connection(ExportImport):
 
     def _add(self, obj, oid):
         assert obj._p_oid is None
+        # Join the transaction before touching the object: if joining is
+        # refused, the object must not be left owned but untracked.
+        self._register()
         oid = obj._p_oid = oid
         obj._p_jar = self
         if self._added_during_commit is not None:
